@@ -48,3 +48,30 @@ Example C15_nonvacuous :
     [@ONds Qn 4 [[0; 1; 2; 3; 4]]%nat; @OCrowd Qn 1 [100; 2; 1; 3; 100]%Q; @OSort Qn true [4; 0; 3; 1; 2]%nat]
   = Ok (([4; 0; 3; 1]%nat, [(0, 0, 100%Q); (1, 0, 2%Q); (2, 0, 1%Q); (3, 0, 3%Q); (4, 0, 100%Q)]%nat), []).
 Proof. vm_compute. reflexivity. Qed.
+
+(* ---- known finding pcd/tied-max-extra-infinite: the boundary clause is refuted for the pruning crowding distance with
+   3 objectives.  Nine distinct, mutually non-dominated points; the maximum of objective 0 is held by two different
+   points; SEVEN members get +inf (more than 2 x 3), among them the only holder (index 1) of the maximum of objective 1:
+   when six members are kept, a tie-break among the seven infinite values can drop it. ---- *)
+From Coq Require Import ZArith.
+From PV Require Import Base.NumEQ Model.Crowding Model.Fallback.
+Definition W_pcd3 : list (list eq) :=
+  map (map (fun z => Fin (inject_Z z))) [[0; 3; 2]; [0; 4; 1]; [1; 2; 4]; [2; 0; 3]; [2; 2; 1]; [2; 3; 0]; [3; 1; 2]; [4; 0; 1]; [4; 1; 0]]%Z.
+Definition is_pinf (e : eq) : bool := match e with PInf => true | _ => false end.
+Local Open Scope nat_scope.
+Theorem C15_pcd_boundary_refuted :
+  exists (F : list (list eq)) (k : nat),
+    length (hd [] F) = 3 /\ 2 * 3 <= k < length F /\
+    is_ndsb (N := EQn) F (length F) [seq 0 (length F)] = true /\ NoDup F /\
+    let d := fallback_pcd (X := EQx) F (Z.of_nat (length F - k)) in
+    k < length (filter is_pinf d) /\
+    is_pinf (nth 1 d ENaN) = true /\
+    forall i, i < length F -> i <> 1 -> eltb (nth 1 (nth i F []) ENaN) (nth 1 (nth 1 F []) ENaN) = true.
+Proof.
+  exists W_pcd3, 6. split; [reflexivity|]. split; [cbn; split; repeat constructor|]. split; [vm_compute; reflexivity|]. split.
+  - unfold W_pcd3. cbn [map]. repeat (constructor; [cbn; intuition discriminate|]). constructor.
+  - cbv zeta. split; [vm_compute; repeat constructor|]. split; [vm_compute; reflexivity|].
+    intros i Hi Hne. cbn in Hi. do 9 (destruct i as [|i]; [try congruence; vm_compute; reflexivity|]). exfalso.
+    do 9 apply Nat.succ_lt_mono in Hi. inversion Hi.
+Qed.
+Print Assumptions C15_pcd_boundary_refuted.
